@@ -43,9 +43,16 @@ class Prover:
     rets = [e for e in w.events if e.kind == "return"]
     ok = bool(rets)
     why = ""
+    self.batchgcd_trivial = []   # shortcut returns ([] or [1] * len(values)): divisibility holds trivially
+    n_main = 0
     for e in rets:
-      v = as_poly(e.data["value"])
+      raw = e.data["value"]
+      v = as_poly(raw)
       a = v.as_atom()
+      if self.trivial_return(raw, values):
+        self.batchgcd_trivial.append(e)
+        continue
+      n_main += 1
       good = False
       if a is not None and a.kind == "map" and a.args[2] == values:
         elt, bv, src = a.args
@@ -72,11 +79,27 @@ class Prover:
       else:
         why = "result is not a comprehension over the parameter `values`"
       ok = ok and good
+    if ok and n_main == 0:
+      ok, why = False, "no return computes gcds"
     self.batchgcd_ok = ok
     self.ctx.record("R-C01-CERT", f.where, "return [D[v] for v in values], D = {v: gcd(v, r)}", ok,
                     "element-wise: result[i] = gcd(values[i], _) divides values[i]; same length and order as the input" if ok
                     else "BatchGCD result is not element-wise gcd(values[i], _): " + why)
     return ok
+
+  @staticmethod
+  def trivial_return(raw, values):
+    """[] or [1] * len(values): every entry is 1, one per input value."""
+    if isinstance(raw, sym.Seq) and not raw.items:
+      return True
+    a = as_poly(raw).as_atom()
+    if a is not None and a.kind == "listrep" and len(a.args) == 2:
+      s0 = a.args[0].as_atom() if isinstance(a.args[0], Poly) else None
+      if s0 is not None and s0.kind == "seq" and len(s0.args) == 1:
+        x = s0.args[0]
+        one = isinstance(x, Poly) and x.as_int() == 1     # gmpy.mpz(1) folds to 1
+        return bool(one) and a.args[1] == sym.mk("len", values)
+    return False
 
   def extra_div(self, e, n, facts):
     """Axioms from proved summaries."""
@@ -252,10 +275,13 @@ def run(ctx):
       if isinstance(n, ast.Call) and isinstance(n.func, ast.Attribute) and n.func.attr == "AttachFactors":
         ctx.violation("R-C01-SINK", fn.where, norm(n), "factors attached outside a Check body: no certificate can be associated")
   rule_merge(ctx)
+  # "the key is marked weak": Check bodies set entry.result = True (above); SetTestResult turns that into test_info.weak
+  from . import c16
+  ctx.borrow(c16.rule_mono, "R-C01-WEAK", lambda r: r.construct == "weak-flag")
   ctx.expect("R-C01-SINK", 12, "12 AttachFactors sites")
   ctx.expect("R-C01-CERT", 14, "11 factor-producing returns + inline sites + BatchGCD")
   ctx.expect("R-C01-PROPER", 4, "four gcd-based helpers")
-  ctx.expect("R-C01-WEAK", 12, "12 attaching Check bodies")
+  ctx.expect("R-C01-WEAK", 13, "12 attaching Check bodies + SetTestResult summary")
   ctx.extra["summaries"] = {k: {"ok": v["ok"], "flag": v["flag"], "returns": v["returns"]} for k, v in pr.summaries.items()}
 
 
